@@ -20,7 +20,7 @@ RULE = (
     "non-trivial = >=2 plates of unequal sizes or >=4 thetas"
 )
 ASSUMPTIONS = ["means bounded by a few hundred (up to 2**20 when they lie on a binary grid on which every difference is exact) so squares stay finite", "scalar reference uses math.fsum and a stable log-sum-exp"]
-REQUIRED = {"kernel_calls_repeated_on_nan_padded_arrays": {"quick": 100, "thorough": 1500}, "scores_by_a_long_lived_scorer_object": {"quick": 300, "thorough": 5000}, "work_array_scale_runs": {"quick": 1, "thorough": 1}, "configs_with_more_than_5000_triples": {"quick": 10, "thorough": 200}, "cli_end_to_end_runs": {"quick": 5, "thorough": 50}, "scorer_runs_on_overlapping_views": {"quick": 10, "thorough": 150}, "production_size_plates": {"quick": 40, "thorough": 800}, "plate_scores_vs_reference": {"quick": 10000, "thorough": 200000}, "metamorphic_checks": {"quick": 10000, "thorough": 200000}, "scorer_entry_runs": {"quick": 800, "thorough": 15000}, "all_zero_distance_cases": {"quick": 10, "thorough": 200}}
+REQUIRED = {"configs_with_nearly_constant_variances": {"quick": 50, "thorough": 1000}, "configs_with_tiny_unequal_variances": {"quick": 25, "thorough": 500}, "kernel_calls_repeated_on_nan_padded_arrays": {"quick": 100, "thorough": 1500}, "scores_by_a_long_lived_scorer_object": {"quick": 300, "thorough": 5000}, "work_array_scale_runs": {"quick": 1, "thorough": 1}, "configs_with_more_than_5000_triples": {"quick": 10, "thorough": 200}, "cli_end_to_end_runs": {"quick": 5, "thorough": 50}, "scorer_runs_on_overlapping_views": {"quick": 10, "thorough": 150}, "production_size_plates": {"quick": 40, "thorough": 800}, "plate_scores_vs_reference": {"quick": 10000, "thorough": 200000}, "metamorphic_checks": {"quick": 10000, "thorough": 200000}, "scorer_entry_runs": {"quick": 800, "thorough": 15000}, "all_zero_distance_cases": {"quick": 10, "thorough": 200}}
 N_CFG = {"quick": 960, "thorough": 16000}
 TOL = 1e-9
 
@@ -124,6 +124,9 @@ def cli_end_to_end(rec, tier, rng):
                 rec.check(same(float(sc), ref, 1e-8), "C05/scorer/differs-from-direct-estimator", lambda: "command lines with --thetas %r: plate %d scored %r, the direct estimator over the samples in that order gives %r" % (labels, int(pid), float(sc), ref), w)
 
 
+NEAR = [0, 0]
+
+
 def gen_config(rng):
     u = rng.random()
     T = int(rng.integers(3, 8)) if u < 0.6 else int(rng.integers(8, 17)) if u < 0.9 else int(rng.integers(17, 33))
@@ -169,6 +172,20 @@ def gen_config(rng):
         hetero[big] = centre * np.exp(rng.normal(size=(T, sizes[big])) * 0.2)
         homo[big] = centre * np.exp(rng.normal(size=T) * 0.2)
         means[big] = means[big] * float(rng.choice([1.0, np.sqrt(centre)]))  # disagreement on the scale of the noise
+    u = rng.random()
+    if u < 0.10:
+        # nearly - not exactly - homoscedastic: on every plate each sample's variances agree to five to seven digits
+        # (a noise model fitted per well that came out almost flat)
+        eps = float(rng.choice([3e-6, 1e-6, 1e-7]))
+        hetero = [np.exp(rng.uniform(np.log(1e-2), np.log(1e2), size=(T, 1))) * (1.0 + eps * rng.uniform(-1, 1, size=(T, e))) for e in sizes]
+        NEAR[0] += 1
+    elif u < 0.16:
+        # very small variances that differ from well to well by factors of 2-20 (read-outs on a 1e-4 scale)
+        hetero = [np.exp(rng.uniform(np.log(5e-10), np.log(1e-8), size=(T, e))) for e in sizes]
+        homo = np.exp(rng.uniform(np.log(5e-10), np.log(1e-8), size=(P, T)))
+        means = [m / mscale * 1e-4 if np.all(np.abs(m) < 1e3 * mscale) else m for m in means]
+        means = [np.clip(m, -1e-3, 1e-3) for m in means]
+        NEAR[1] += 1
     d = np.abs(rng.normal(size=(T, T))) * float(rng.choice([1e-3, 1.0, 50.0]))
     d = d + d.T
     zero_frac = float(rng.choice([0.0, 0.1, 0.4, 1.0], p=[0.4, 0.3, 0.25, 0.05]))
@@ -205,7 +222,12 @@ def run_shard(rec, tier, seed, shard, nshards):
         return np.random.default_rng(int(rng.integers(0, 2**31)))
 
     for ci in range(n_cfg):
+        n0_ = tuple(NEAR)
         T, P, sizes, means, hetero, homo, d = gen_config(rng)
+        if NEAR[0] > n0_[0]:
+            rec.count("configs_with_nearly_constant_variances")
+        if NEAR[1] > n0_[1]:
+            rec.count("configs_with_tiny_unequal_variances")
         if rng.random() < 0.12:
             # integer-typed inputs (counts, 0/1 read-outs, whole-number variances) are numbers like any other
             which = str(rng.choice(["means", "variances", "first-plate-means", "both"]))
